@@ -37,6 +37,10 @@ type dClient struct {
 	batch  int    // listing page size used by a commit (0: default)
 	// faultGet: the first read (Get/Has/GetAttr) of a key containing this text fails with a transient error
 	faultGet string
+	// faultPut: the first write of a key containing this text fails with a transient error
+	faultPut string
+	// bulk: number of filler files a split run uploads besides its own file
+	bulk int
 }
 
 type dScenario struct {
@@ -69,6 +73,16 @@ func (d *dRun) stores(name string, gated bool, c dClient) (context2.Stores, *sto
 	}
 	if c.crash > 0 {
 		ctl.CrashAt, ctl.Before = c.crash, c.before
+	}
+	if c.faultPut != "" {
+		fired := false
+		ctl.FaultFn = func(storeName, op, key string, nth int) bool {
+			if !fired && op == "put" && strings.Contains(key, c.faultPut) {
+				fired = true
+				return true
+			}
+			return false
+		}
 	}
 	if c.faultGet != "" {
 		fired := false
@@ -145,6 +159,11 @@ func (d *dRun) flush() {
 				d.events = append(d.events, map[string]interface{}{"op": "crash", "client": e.Client, "kind": kind})
 				continue
 			}
+			if e.Err == "fault" {
+				// a write that failed transiently: it never reached the store
+				d.events = append(d.events, map[string]interface{}{"op": "fault", "client": e.Client, "kind": kind})
+				continue
+			}
 			res := "ok"
 			if e.Err == "exists" {
 				res = "exists"
@@ -197,7 +216,7 @@ func (d *dRun) start(c dClient, gated bool) chan map[string]interface{} {
 		switch c.role {
 		case "split":
 			files := []treeEntry{{P: "sp/" + c.split, C: "run:" + c.name}}
-			src, _ := d.e.writeTree(files, 0)
+			src, _ := d.e.writeTree(files, c.bulk)
 			sd := model.NewSplitDescriptor(model.SplitID(c.split), model.SplitContributor(contributor()))
 			opts := []core.SplitOption{core.SplitDescriptor(sd), core.SplitConsumableStore(src), core.SplitLogger(zap.NewNop()),
 				core.SplitConcurrentFileUploads(1)}
@@ -335,6 +354,9 @@ func (d *dRun) decodeBundles() {
 		}
 		runs := []interface{}{}
 		for _, en := range b.GetBundleEntries() {
+			if strings.HasPrefix(en.NameWithPath, "bulk/") {
+				continue // filler files of a big split run: they come with that run's own file
+			}
 			if r, ok := d.runKey[en.Hash]; ok && strings.HasPrefix(en.NameWithPath, "sp/") {
 				runs = append(runs, map[string]string{"split": r[0], "gen": d.genOf[r[1]]})
 			} else {
@@ -454,6 +476,17 @@ func diamondScenarios(seed int64, thorough bool) []dScenario {
 		ur := u2
 		ur.faultGet = "split-done"
 		out = append(out, dScenario{label: "done-split-read-fault", setup: []dClient{u1}, then: []dClient{ur, k1}})
+	}
+	// a commit of exactly 1000 entries (one full index file and no partial one) whose index-file write fails
+	// transiently: the bundle must not become visible; the retried commit publishes it
+	{
+		big := dClient{name: "u1", role: "split", split: "s1", bulk: 999}
+		kf := k1
+		kf.faultPut = "bundle-files-"
+		out = append(out, dScenario{label: "commit-index-write-fault", setup: []dClient{big}, then: []dClient{kf, k2}})
+		kp := k1
+		kp.faultPut = "bundle-files-"
+		out = append(out, dScenario{label: "commit-index-write-fault", setup: []dClient{u1, u3}, then: []dClient{kp, k2}})
 	}
 	// crashes: the committer (or a split run) dies at each of its writes, then the operation is retried
 	for m := 1; m <= 4; m++ {
